@@ -331,7 +331,12 @@ func extract(repo string) error {
 	if string(mApp[2]) != "slim" {
 		return fmt.Errorf("args.checkOptions appends template %q, the model knows slim", mApp[2])
 	}
-	p("def cmdEnv : CmdEnv := { iNested := %d, templateName := %s }\n\n", idx("enable_nested_struct"), vl.LeanBytes(string(mName[1])))
+	// does checkOptions return the error of its scratch HandleOptions (repair 4394ad6) or drop it?
+	errReturned := regexp.MustCompile(`if err := cu\.HandleOptions\(params\); err != nil \{\s*return nil, err\s*\}`).Match(asrc)
+	if !errReturned && !regexp.MustCompile(`(?m)^\s*cu\.HandleOptions\(params\)\s*$`).Match(asrc) {
+		return fmt.Errorf("args.checkOptions: the scratch HandleOptions call has neither known shape")
+	}
+	p("def cmdEnv : CmdEnv := { iNested := %d, templateName := %s, probeErrReturned := %s }\n\n", idx("enable_nested_struct"), vl.LeanBytes(string(mName[1])), vl.LeanBool(errReturned))
 	p("/-- rows of the README option table: name, documented boolean default (none for valued options) -/\n")
 	p("def documented : List (Bytes × Option Bool) := [\n")
 	for i, r := range rows {
